@@ -14,6 +14,9 @@
 import SkyllhModel.Proofs.Store
 import SkyllhModel.Props.C16
 import SkyllhModel.Model.PseudoData
+import SkyllhModel.Model.PseudoDataR7
+import SkyllhModel.Generated.C07
+import Mathlib.Analysis.Real.Pi.Bounds
 import Mathlib.Analysis.SpecialFunctions.Trigonometric.Basic
 import SkyllhModel.Proofs.RealScalar
 import Mathlib.Algebra.Order.Round
@@ -905,3 +908,502 @@ theorem c07_n_bkg_preselection_bounds (n : ℕ) (meanSel mean : ℝ) (hm : 0 < m
     simpa using this
 
 example : nBkgRaw 99 (873 / 10 : ℝ) (873 / 10) = 99 := (c07_n_bkg_no_preselection 99 _ (by norm_num)).1
+
+
+/-! ## Round 7: `scramble_data` with its `copy` flag, the signal-injection loop, composed trial calls with exception
+semantics, and the tie of the `copy=` keyword / default RA range / assigned fields to the current source -/
+
+namespace C07
+
+theorem runH_append : ∀ (a b : List Op) (s : St), runH s (a ++ b) = runH (runH s a) b := by
+  intro a
+  induction a with
+  | nil => intro b s; rfl
+  | cons op a ih => intro b s; simp only [List.cons_append, runH]; exact ih b _
+
+/-- exception semantics of a sequence of container operations = the plain run of a prefix of it -/
+theorem runHE_take : ∀ (ops : List Op) (s : St), ∃ k, (runHE s ops).1 = runH s (ops.take k) := by
+  intro ops
+  induction ops with
+  | nil => intro s; exact ⟨0, rfl⟩
+  | cons op ops ih =>
+    intro s
+    rcases h : stepH s op with ⟨s', res⟩
+    cases res with
+    | ok o =>
+      obtain ⟨k, hk⟩ := ih s'
+      refine ⟨k + 1, ?_⟩
+      simp only [runHE, h, List.take_succ_cons, runH]
+      exact hk
+    | error e =>
+      refine ⟨1, ?_⟩
+      simp [runHE, h, runH]
+
+theorem rolesOK_mono {n0 n' : Nat} {r : Roles} (hr : RolesOK n0 r) (h : n0 ≤ n') : RolesOK n' r :=
+  ⟨by have := hr.1; omega, by have := hr.2.1; omega, hr.2.2.1, hr.2.2.2⟩
+
+theorem scrambleData_targets (n0 c : Nat) (copy : Bool) (scr : Option Scr) (vals : List Col) :
+    ∀ op ∈ (scrambleData n0 c copy scr vals).1, ∀ x, target op = some x → (copy = true ∧ x = n0) ∨ (copy = false ∧ x = c) := by
+  intro op hop x hx
+  unfold scrambleData at hop
+  cases copy with
+  | true =>
+    simp only [if_true, List.mem_append, List.mem_singleton] at hop
+    rcases hop with h | h
+    · subst h; simp [target] at hx
+    · rw [mem_setItems h] at hx; exact Or.inl ⟨rfl, (Option.some.inj hx).symm⟩
+  | false =>
+    simp only [Bool.false_eq_true, if_false] at hop
+    rw [mem_setItems hop] at hx; exact Or.inr ⟨rfl, (Option.some.inj hx).symm⟩
+
+theorem injectPlan_targets (events sig : Option Nat) :
+    ∀ op ∈ (injectPlan events sig).1, ∀ x, target op = some x → events = some x := by
+  intro op hop x hx
+  unfold injectPlan at hop
+  cases sig with
+  | none => cases hop
+  | some s =>
+    cases events with
+    | none => cases hop
+    | some b =>
+      simp only [List.mem_singleton] at hop
+      subst hop
+      simp only [target, Option.some.injEq] at hx
+      rw [hx]
+
+theorem injectPlan_handle (events sig : Option Nat) (e : Nat) (h : (injectPlan events sig).2 = some e) :
+    events = some e ∨ sig = some e := by
+  unfold injectPlan at h
+  cases sig with
+  | none => exact Or.inl h
+  | some s =>
+    cases events with
+    | none => exact Or.inr h
+    | some b => exact Or.inl h
+
+theorem handlesOK7_congr {r r' : Roles} (he : r'.exp = r.exp) (hm : r'.mc = r.mc) (gop : GOp7) (h : HandlesOK7 r gop) :
+    HandlesOK7 r' gop := by
+  cases gop with
+  | base op => cases op <;> simp only [HandlesOK7, HandlesOK, he, hm] at h ⊢ <;> exact h
+  | scramble c copy scr vals => simp only [HandlesOK7, he, hm] at h ⊢; exact h
+  | fixedBkg copy scr vals => exact h
+  | inject events sig => simp only [HandlesOK7, he, hm] at h ⊢; exact h
+  | trialBkgSig b s cfg fields => simp only [HandlesOK7, he, hm] at h ⊢; exact h
+
+end C07
+
+/-- **No call of the round-7 model targets the stored data**: `scramble_data` with `copy=True` on any container (also a stored
+one) or in place on a generated one, the fixed background generation provided its keyword is `copy=True`, the signal-injection
+loop and the composed trial call on generated handles (each may be `None`). -/
+theorem c07_compile7_targets (n0 : Nat) (r : Roles) (gop : GOp7) (hr : RolesOK n0 r) (hh : HandlesOK7 r gop) :
+    (∀ op ∈ (compile7 n0 r gop).first ++ (compile7 n0 r gop).rest, target op ≠ some r.exp ∧ target op ≠ some r.mc) ∧
+    (compile7 n0 r gop).roles.exp = r.exp ∧ (compile7 n0 r gop).roles.mc = r.mc ∧
+    ∀ n', n0 ≤ n' → RolesOK n' (compile7 n0 r gop).roles := by
+  have big : ∀ x, n0 ≤ x → x ≠ r.exp ∧ x ≠ r.mc := fun x hx => ⟨by have := hr.1; omega, by have := hr.2.1; omega⟩
+  have wrap : ∀ (ops : List Op), (∀ op ∈ ops, ∀ x, target op = some x → x ≠ r.exp ∧ x ≠ r.mc) →
+      ∀ op ∈ ops, target op ≠ some r.exp ∧ target op ≠ some r.mc :=
+    fun ops hs op hop => ⟨fun h1 => (hs op hop _ h1).1 rfl, fun h1 => (hs op hop _ h1).2 rfl⟩
+  cases gop with
+  | base op => exact c07_compile_targets n0 r op hr hh
+  | scramble c copy scr vals =>
+    refine ⟨wrap _ ?_, rfl, rfl, fun n' hn => C07.rolesOK_mono hr hn⟩
+    intro op hop x hx
+    simp only [compile7, List.nil_append] at hop
+    rcases C07.scrambleData_targets n0 c copy scr vals op hop x hx with ⟨_, rfl⟩ | ⟨hc, rfl⟩
+    · exact big _ (le_refl _)
+    · rcases hh with h | h
+      · rw [h] at hc; cases hc
+      · exact h
+  | fixedBkg copy scr vals =>
+    refine ⟨wrap _ ?_, rfl, rfl, fun n' hn => C07.rolesOK_mono hr hn⟩
+    intro op hop x hx
+    simp only [compile7, List.nil_append] at hop
+    rcases C07.scrambleData_targets n0 r.exp copy (some scr) vals op hop x hx with ⟨_, rfl⟩ | ⟨hc, rfl⟩
+    · exact big _ (le_refl _)
+    · have : copy = true := hh
+      rw [this] at hc; cases hc
+  | inject events sig =>
+    cases sig with
+    | none => exact ⟨fun op hop => by simp [compile7] at hop, rfl, rfl, fun n' hn => C07.rolesOK_mono hr hn⟩
+    | some cols =>
+      refine ⟨wrap _ ?_, rfl, rfl, fun n' hn => C07.rolesOK_mono hr hn⟩
+      intro op hop x hx
+      simp only [compile7, List.append_nil, List.mem_append, List.mem_singleton] at hop
+      rcases hop with h | h
+      · subst h; simp [target] at hx
+      · exact hh x (C07.injectPlan_targets events (some n0) op h x hx)
+  | trialBkgSig b s cfg fields =>
+    cases hm : (injectPlan b s).2 with
+    | none =>
+      have e1 : compile7 n0 r (.trialBkgSig b s cfg fields) = ⟨[], [], r, none, true⟩ := by simp only [compile7, hm]
+      rw [e1]
+      exact ⟨fun op hop => by simp at hop, rfl, rfl, fun n' hn => C07.rolesOK_mono hr hn⟩
+    | some e =>
+      have e1 : compile7 n0 r (.trialBkgSig b s cfg fields) =
+          ⟨(injectPlan b s).1, (trialOps n0 e cfg).1 ++ setItems (trialOps n0 e cfg).2 fields,
+           { r with events := some (trialOps n0 e cfg).2 }, some (trialOps n0 e cfg).2, false⟩ := by simp only [compile7, hm]
+      rw [e1]
+      have he : e ≠ r.exp ∧ e ≠ r.mc := by
+        rcases C07.injectPlan_handle b s e hm with h | h
+        · exact hh.1 e h
+        · exact hh.2 e h
+      have hev : (trialOps n0 e cfg).2 ≠ r.exp ∧ (trialOps n0 e cfg).2 ≠ r.mc := by
+        rcases (trialOps_targets n0 e cfg).2 with h | h <;> rw [h]
+        · exact he
+        · exact big _ (le_refl _)
+      refine ⟨wrap _ ?_, rfl, rfl, fun n' hn => ⟨by have := hr.1; show r.exp < n'; omega, by have := hr.2.1; show r.mc < n'; omega, hr.2.2.1, ?_⟩⟩
+      · intro op hop x hx
+        simp only [List.mem_append] at hop
+        rcases hop with h | h | h
+        · exact hh.1 x (C07.injectPlan_targets b s op h x hx)
+        · rcases (trialOps_targets n0 e cfg).1 op h x hx with rfl | rfl
+          · exact he
+          · exact big _ (le_refl _)
+        · rw [mem_setItems h] at hx; cases hx; exact hev
+      · intro ev h
+        simp only [Option.some.injEq] at h
+        subst h
+        exact hev
+
+namespace C07
+
+/-- container operations none of which targets a stored container: the simulation is kept and the stored tables stay -/
+theorem ops_frame (g : G) (ts : List Table) (good : Good g.st ts) (hr : RolesOK g.st.conts.length g.roles) (ops : List Op)
+    (h : ∀ op ∈ ops, target op ≠ some g.roles.exp ∧ target op ≠ some g.roles.mc) :
+    Good (runH g.st ops) (runT ts ops) ∧ (runT ts ops)[g.roles.exp]? = ts[g.roles.exp]? ∧
+    (runT ts ops)[g.roles.mc]? = ts[g.roles.mc]? ∧ g.st.conts.length ≤ (runH g.st ops).conts.length := by
+  have good' := c16_refines good ops
+  refine ⟨good', ?_, ?_, ?_⟩
+  · exact frame_ops _ ts _ (by rw [← good.len]; exact hr.1) (fun op hop => (h op hop).1)
+  · exact frame_ops _ ts _ (by rw [← good.len]; exact hr.2.1) (fun op hop => (h op hop).2)
+  · rw [good'.len, good.len]; exact runT_length_le _ _
+
+/-- one call of the round-7 model, whether it returns or raises (and wherever it raises) -/
+theorem gstep7_frame (g : G) (ts : List Table) (good : Good g.st ts) (hr : RolesOK g.st.conts.length g.roles)
+    (gop : GOp7) (hh : HandlesOK7 g.roles gop) :
+    ∃ ts', Good (gstep7 g gop).1.st ts' ∧ ts'[g.roles.exp]? = ts[g.roles.exp]? ∧ ts'[g.roles.mc]? = ts[g.roles.mc]? ∧
+      RolesOK (gstep7 g gop).1.st.conts.length (gstep7 g gop).1.roles ∧
+      (gstep7 g gop).1.roles.exp = g.roles.exp ∧ (gstep7 g gop).1.roles.mc = g.roles.mc := by
+  obtain ⟨h1, h2, h3, h4⟩ := c07_compile7_targets g.st.conts.length g.roles gop hr hh
+  obtain ⟨k, hk⟩ := runHE_take (compile7 g.st.conts.length g.roles gop).first g.st
+  have hpre : ∀ op ∈ (compile7 g.st.conts.length g.roles gop).first.take k,
+      target op ≠ some g.roles.exp ∧ target op ≠ some g.roles.mc :=
+    fun op hop => h1 op (List.mem_append_left _ (List.mem_of_mem_take hop))
+  have hall : ∀ op ∈ (compile7 g.st.conts.length g.roles gop).first.take k ++ (compile7 g.st.conts.length g.roles gop).rest,
+      target op ≠ some g.roles.exp ∧ target op ≠ some g.roles.mc := by
+    intro op hop
+    rcases List.mem_append.1 hop with h | h
+    · exact hpre op h
+    · exact h1 op (List.mem_append_right _ h)
+  unfold gstep7
+  simp only []
+  split
+  · exact ⟨ts, good, rfl, rfl, hr, rfl, rfl⟩
+  · split
+    · rename_i s hE
+      have hs : s = runH g.st ((compile7 g.st.conts.length g.roles gop).first.take k) := by rw [← hk, hE]
+      obtain ⟨a, b, c, d⟩ := ops_frame g ts good hr _ hpre
+      subst hs
+      exact ⟨_, a, b, c, rolesOK_mono hr d, rfl, rfl⟩
+    · rename_i s hE
+      have hs : s = runH g.st ((compile7 g.st.conts.length g.roles gop).first.take k) := by rw [← hk, hE]
+      obtain ⟨a, b, c, d⟩ := ops_frame g ts good hr _ hall
+      subst hs
+      rw [← runH_append]
+      exact ⟨_, a, b, c, h4 _ d, h2, h3⟩
+
+end C07
+
+/-- **Frame property, round-7 histories (exception semantics included).**  After any history of calls of the round-7 model —
+everything of `c07_frame`, `DataScrambler.scramble_data` with either value of `copy`, the signal-injection loop with `None`
+events / `None` signal, `do_trial_with_given_bkg_and_sig_pseudo_data` — in which a call may raise at any of the container
+operations of its exception-semantics part (the rest of that call is then not executed, the caller goes on with the next
+call), `data.exp` and `data.mc` read exactly as before. -/
+theorem c07_frame7 (g : G) (ts : List Table) (good : Good g.st ts) (hr : RolesOK g.st.conts.length g.roles)
+    (gops : List GOp7) (hh : ∀ gop ∈ gops, HandlesOK7 g.roles gop) :
+    viewAt (grun7 g gops).st g.roles.exp = viewAt g.st g.roles.exp ∧
+    viewAt (grun7 g gops).st g.roles.mc = viewAt g.st g.roles.mc ∧
+    (grun7 g gops).roles.exp = g.roles.exp ∧ (grun7 g gops).roles.mc = g.roles.mc ∧
+    C16.Inv (grun7 g gops).st := by
+  induction gops generalizing g ts with
+  | nil => exact ⟨rfl, rfl, rfl, rfl, ts, good⟩
+  | cons gop gops ih =>
+    obtain ⟨ts', good', he, hm, hr', re, rm⟩ := C07.gstep7_frame g ts good hr gop (hh gop List.mem_cons_self)
+    have hh' : ∀ gop' ∈ gops, HandlesOK7 (gstep7 g gop).1.roles gop' :=
+      fun gop' hg => C07.handlesOK7_congr re rm gop' (hh gop' (List.mem_cons_of_mem _ hg))
+    obtain ⟨i1, i2, i3, i4, i5⟩ := ih (gstep7 g gop).1 ts' good' hr' hh'
+    simp only [grun7]
+    refine ⟨?_, ?_, by rw [i3, re], by rw [i4, rm], i5⟩
+    · rw [← re, i1, re, view_eq good', view_eq good]; unfold getT; rw [he]
+    · rw [← rm, i2, rm, view_eq good', view_eq good]; unfold getT; rw [hm]
+
+/-- **The handle a round-7 call returns is a generated container** (or `None`), never a stored one. -/
+theorem c07_returned_handle7_generated (n0 : Nat) (r : Roles) (gop : GOp7) (hr : RolesOK n0 r) (hh : HandlesOK7 r gop) :
+    ∀ h, (compile7 n0 r gop).handle = some h → h ≠ r.exp ∧ h ≠ r.mc := by
+  have big : ∀ x, n0 ≤ x → x ≠ r.exp ∧ x ≠ r.mc := fun x hx => ⟨by have := hr.1; omega, by have := hr.2.1; omega⟩
+  intro h hh'
+  cases gop with
+  | base op => exact c07_returned_handle_generated n0 r op hr hh h hh'
+  | scramble c copy scr vals =>
+    simp only [compile7, scrambleData, Option.some.injEq] at hh'
+    cases copy with
+    | true => simp only [if_true] at hh'; subst hh'; exact big _ (le_refl _)
+    | false =>
+      simp only [Bool.false_eq_true, if_false] at hh'; subst hh'
+      rcases hh with h1 | h1
+      · cases h1
+      · exact h1
+  | fixedBkg copy scr vals =>
+    have hc : copy = true := hh
+    subst hc
+    simp only [compile7, scrambleData, if_true, Option.some.injEq] at hh'
+    subst hh'; exact big _ (le_refl _)
+  | inject events sig =>
+    cases sig with
+    | none => simp only [compile7] at hh'; exact hh h hh'
+    | some cols =>
+      simp only [compile7] at hh'
+      rcases C07.injectPlan_handle events (some n0) h hh' with h1 | h1
+      · exact hh h h1
+      · cases h1; exact big _ (le_refl _)
+  | trialBkgSig b s cfg fields =>
+    cases hm : (injectPlan b s).2 with
+    | none => simp [compile7, hm] at hh'
+    | some e =>
+      simp only [compile7, hm, Option.some.injEq] at hh'
+      subst hh'
+      have he : e ≠ r.exp ∧ e ≠ r.mc := by
+        rcases C07.injectPlan_handle b s e hm with h1 | h1
+        · exact hh.1 e h1
+        · exact hh.2 e h1
+      rcases (trialOps_targets n0 e cfg).2 with h1 | h1 <;> rw [h1]
+      · exact he
+      · exact big _ (le_refl _)
+
+namespace C07
+
+/-- the handle `gstep7` gives back is `None` or the handle of the plan -/
+theorem gstep7_handle (g : G) (gop : GOp7) (h : Nat) (hh : (gstep7 g gop).2.1 = some h) :
+    (compile7 g.st.conts.length g.roles gop).handle = some h := by
+  unfold gstep7 at hh
+  simp only [] at hh
+  split at hh
+  · cases hh
+  · split at hh
+    · cases hh
+    · exact hh
+
+/-- the frame facts of one call, in the form used for composing calls -/
+theorem gstep7_frame' (g : G) (ts : List Table) (good : Good g.st ts) (hr : RolesOK g.st.conts.length g.roles)
+    (gop : GOp7) (hh : HandlesOK7 g.roles gop) :
+    (∃ ts', Good (gstep7 g gop).1.st ts') ∧ RolesOK (gstep7 g gop).1.st.conts.length (gstep7 g gop).1.roles ∧
+    viewAt (gstep7 g gop).1.st g.roles.exp = viewAt g.st g.roles.exp ∧ viewAt (gstep7 g gop).1.st g.roles.mc = viewAt g.st g.roles.mc ∧
+    (gstep7 g gop).1.roles.exp = g.roles.exp ∧ (gstep7 g gop).1.roles.mc = g.roles.mc ∧
+    (∀ h, (gstep7 g gop).2.1 = some h → h ≠ g.roles.exp ∧ h ≠ g.roles.mc) := by
+  obtain ⟨ts', good', he, hm, hr', re, rm⟩ := gstep7_frame g ts good hr gop hh
+  refine ⟨⟨ts', good'⟩, hr', ?_, ?_, re, rm, ?_⟩
+  · rw [view_eq good', view_eq good]; unfold getT; rw [he]
+  · rw [view_eq good', view_eq good]; unfold getT; rw [hm]
+  · intro h hh'
+    exact c07_returned_handle7_generated _ _ gop hr hh h (gstep7_handle g gop h hh')
+
+/-- background generation calls: the fixed method provided it copies, the MC sampling methods -/
+def IsBkgGen : GOp7 → Prop
+  | .fixedBkg copy _ _ => copy = true
+  | .base (.genFixed _ _) => True
+  | .base (.genMC _ _ _ _ _ _) => True
+  | .base (.genComposite _ _ _ _ _ _ _) => True
+  | _ => False
+
+theorem isBkgGen_handlesOK (r : Roles) (gop : GOp7) (h : IsBkgGen gop) : HandlesOK7 r gop := by
+  cases gop with
+  | base op => cases op <;> first | exact h.elim | exact trivial
+  | fixedBkg copy scr vals => exact h
+  | scramble _ _ _ _ => exact h.elim
+  | inject _ _ => exact h.elim
+  | trialBkgSig _ _ _ _ => exact h.elim
+
+end C07
+
+/-- **`Analysis.do_trial` end to end** (background of any generation method, signal injected into it or not, trial initialised
+and evaluated; an exception may end the call after any stage): the stored data read as before, the roles of the stored
+containers stay, the store invariant holds — so the next `do_trial` starts from the same premises. -/
+theorem c07_do_trial_frame (g : G) (ts : List Table) (good : Good g.st ts) (hr : RolesOK g.st.conts.length g.roles)
+    (bkg : GOp7) (hb : C07.IsBkgGen bkg) (sig : Option (List (Name × Col))) (cfg : TrialCfg) (fields : List (Name × Col)) :
+    viewAt (doTrial g bkg sig cfg fields).1.st g.roles.exp = viewAt g.st g.roles.exp ∧
+    viewAt (doTrial g bkg sig cfg fields).1.st g.roles.mc = viewAt g.st g.roles.mc ∧
+    (doTrial g bkg sig cfg fields).1.roles.exp = g.roles.exp ∧ (doTrial g bkg sig cfg fields).1.roles.mc = g.roles.mc ∧
+    RolesOK (doTrial g bkg sig cfg fields).1.st.conts.length (doTrial g bkg sig cfg fields).1.roles ∧
+    C16.Inv (doTrial g bkg sig cfg fields).1.st := by
+  obtain ⟨⟨ts1, good1⟩, hr1, e1, m1, re1, rm1, hd1⟩ := C07.gstep7_frame' g ts good hr bkg (C07.isBkgGen_handlesOK _ _ hb)
+  have hh2 : HandlesOK7 (gstep7 g bkg).1.roles (.inject (gstep7 g bkg).2.1 sig) := by
+    intro b hb'
+    rw [re1, rm1]
+    exact hd1 b hb'
+  obtain ⟨⟨ts2, good2⟩, hr2, e2, m2, re2, rm2, hd2⟩ := C07.gstep7_frame' _ ts1 good1 hr1 _ hh2
+  have hh3 : HandlesOK7 (gstep7 (gstep7 g bkg).1 (.inject (gstep7 g bkg).2.1 sig)).1.roles
+      (.trialBkgSig (gstep7 (gstep7 g bkg).1 (.inject (gstep7 g bkg).2.1 sig)).2.1 none cfg fields) := by
+    refine ⟨?_, fun x hx => by cases hx⟩
+    intro b hb'
+    rw [re2, rm2]
+    exact hd2 b hb'
+  obtain ⟨⟨ts3, good3⟩, hr3, e3, m3, re3, rm3, _⟩ := C07.gstep7_frame' _ ts2 good2 hr2 _ hh3
+  unfold doTrial
+  simp only []
+  split
+  · exact ⟨e1, m1, re1, rm1, hr1, ts1, good1⟩
+  · split
+    · exact ⟨by rw [← re1, e2, re1, e1], by rw [← rm1, m2, rm1, m1], by rw [re2, re1], by rw [rm2, rm1], hr2, ts2, good2⟩
+    · refine ⟨?_, ?_, by rw [re3, re2, re1], by rw [rm3, rm2, rm1], hr3, ts3, good3⟩
+      · rw [← re1, ← re2, e3, re2, e2, re1, e1]
+      · rw [← rm1, ← rm2, m3, rm2, m2, rm1, m1]
+
+namespace C07
+
+/-- the arguments of one `Analysis.do_trial` call (the random draws are inputs) -/
+structure TrialArgs where
+  bkg : GOp7
+  sig : Option (List (Name × Col))
+  cfg : TrialCfg
+  fields : List (Name × Col)
+
+/-- any number of trials, one after the other (a trial that raises is caught by the caller, the next one follows) -/
+def doTrials (g : G) : List TrialArgs → G
+  | [] => g
+  | a :: r => doTrials (doTrial g a.bkg a.sig a.cfg a.fields).1 r
+
+end C07
+
+/-- **Any number of trials.**  After any number of `do_trial` calls (each with any background generation method, any signal,
+any trial configuration, returning or raising) the stored data read as before and the premises hold again. -/
+theorem c07_do_trials_frame (trials : List C07.TrialArgs) (hb : ∀ a ∈ trials, C07.IsBkgGen a.bkg) :
+    ∀ (g : G) (ts : List Table), Good g.st ts → RolesOK g.st.conts.length g.roles →
+    viewAt (C07.doTrials g trials).st g.roles.exp = viewAt g.st g.roles.exp ∧
+    viewAt (C07.doTrials g trials).st g.roles.mc = viewAt g.st g.roles.mc ∧
+    (C07.doTrials g trials).roles.exp = g.roles.exp ∧ (C07.doTrials g trials).roles.mc = g.roles.mc ∧
+    RolesOK (C07.doTrials g trials).st.conts.length (C07.doTrials g trials).roles ∧ C16.Inv (C07.doTrials g trials).st := by
+  induction trials with
+  | nil => intro g ts good hr; exact ⟨rfl, rfl, rfl, rfl, hr, ts, good⟩
+  | cons a r ih =>
+    intro g ts good hr
+    obtain ⟨e1, m1, re1, rm1, hr1, ts1, good1⟩ :=
+      c07_do_trial_frame g ts good hr a.bkg (hb a List.mem_cons_self) a.sig a.cfg a.fields
+    obtain ⟨e2, m2, re2, rm2, hr2, inv2⟩ := ih (fun b hb' => hb b (List.mem_cons_of_mem _ hb')) _ ts1 good1 hr1
+    simp only [C07.doTrials]
+    exact ⟨by rw [← re1, e2, re1, e1], by rw [← rm1, m2, rm1, m1], by rw [re2, re1], by rw [rm2, rm1], hr2, inv2⟩
+
+/-- **Unblinding after any number of trials sees the original data** (the sentence of the property text): the container
+`unblind` evaluates reads exactly like the experimental data as they were before the first trial. -/
+theorem c07_unblind_after_trials (g : G) (ts : List Table) (good : Good g.st ts) (hr : RolesOK g.st.conts.length g.roles)
+    (trials : List C07.TrialArgs) (hb : ∀ a ∈ trials, C07.IsBkgGen a.bkg) (t : Table) (h0 : viewAt g.st g.roles.exp = .ok t)
+    (hne : t.cols ≠ []) :
+    viewAt (gstep (C07.doTrials g trials) (.unblind ⟨[], none, none, []⟩)).1.st (C07.doTrials g trials).st.conts.length = .ok t := by
+  obtain ⟨e, _, re, _, hr', ts', good'⟩ := c07_do_trials_frame trials hb g ts good hr
+  have h0' : viewAt (C07.doTrials g trials).st (C07.doTrials g trials).roles.exp = .ok t := by rw [re, e]; exact h0
+  exact c07_unblind_sees_original (C07.doTrials g trials) ts' good' hr' [] (fun _ h => by cases h) t h0' hne
+
+/-- non-vacuity of the hypothesis of `c07_do_trials_frame`: a trial with the fixed method as coded, then one with MC sampling -/
+example : ∀ a ∈ ([⟨.fixedBkg Gen.C07.fixedBkgCopy .uniformRA [⟨.f32, [1, 2, 3]⟩], none, C07.demoCfgAdopt, []⟩,
+    ⟨.base (.genMC [3, 0] none [0, 1] none [] [3, 0]), some [(3, ⟨.i16, [9]⟩), (0, ⟨.f32, [7]⟩)], C07.demoCfgAdopt, []⟩] : List C07.TrialArgs),
+    C07.IsBkgGen a.bkg := by
+  intro a ha
+  simp only [List.mem_cons, List.not_mem_nil, or_false] at ha
+  rcases ha with rfl | rfl
+  · rfl
+  · trivial
+
+/-- non-vacuity: a trial with the fixed method (keyword of the source), two signal events, an index field -/
+example : (doTrial C07.demoG (.fixedBkg Gen.C07.fixedBkgCopy .uniformRA [⟨.f32, [1, 2, 3]⟩])
+    (some [(3, ⟨.i16, [9, 0]⟩), (0, ⟨.f32, [7, 8]⟩)]) C07.demoCfgAdopt []).2 = true := by decide
+
+/-- **Contract of `DataScrambler.scramble_data` for either value of `copy`**, on any container `c` (stored or generated) with
+any scrambling method (or none): the returned container has the number of events of `c`, and every field outside the
+documented fields of the method is the column of `c` (dtype and values); with `copy=True` the container `c` itself reads as
+before.  (With `copy=False` the returned container *is* `c`: its documented fields are overwritten.) -/
+theorem c07_scramble_data_contract (ts : List Table) (c : Nat) (t : Table) (copy : Bool) (scr : Option Scr) (vals : List Col)
+    (h : ts[c]? = some t) (hne : t.cols ≠ []) :
+    ∃ t', (runT ts (scrambleData ts.length c copy scr vals).1)[(scrambleData ts.length c copy scr vals).2]? = some t' ∧
+      t'.len = t.len ∧
+      (∀ n, (∀ m, scr = some m → n ∉ documented m) → t'.cols.lookup n = t.cols.lookup n) ∧
+      (copy = true → (runT ts (scrambleData ts.length c copy scr vals).1)[c]? = some t) ∧
+      (copy = false → (scrambleData ts.length c copy scr vals).2 = c) := by
+  have hdoc : ∀ n, (∀ m, scr = some m → n ∉ documented m) → n ∉ (scrSets scr vals).map (·.1) := by
+    intro n hn hmem
+    cases scr with
+    | none => simp [scrSets] at hmem
+    | some m => exact hn m rfl (c07_scrSets_documented m vals n hmem)
+  have hc : c < ts.length := by
+    rcases Nat.lt_or_ge c ts.length with h1 | h1
+    · exact h1
+    · rw [List.getElem?_eq_none h1] at h; cases h
+  cases copy with
+  | true =>
+    have e : scrambleData ts.length c true scr vals = ([.copy c none] ++ setItems ts.length (scrSets scr vals), ts.length) := rfl
+    rw [e]
+    obtain ⟨t', h1, h2, h3⟩ := c07_scramble_only_documented_fields ts c t (scrSets scr vals) h hne
+    refine ⟨t', h1, h2, fun n hn => h3 n (hdoc n hn), fun _ => ?_, (fun hf => by cases hf)⟩
+    rw [C07.frame_ops _ ts c hc, h]
+    intro op hop
+    simp only [List.mem_append, List.mem_singleton] at hop
+    rcases hop with h4 | h4
+    · subst h4; simp [target]
+    · rw [mem_setItems h4]; intro h5; have := Option.some.inj h5; omega
+  | false =>
+    have e : scrambleData ts.length c false scr vals = (setItems c (scrSets scr vals), c) := rfl
+    rw [e]
+    obtain ⟨t2, h2, l2, k2⟩ := C07.setItems_run (scrSets scr vals) ts c t h
+    exact ⟨t2, h2, l2, fun n hn => k2 n (hdoc n hn), (fun hf => by cases hf), fun _ => rfl⟩
+
+/-- non-vacuity: in-place time scrambling of a generated container keeps its `run` field (3) -/
+example : ∃ t', (runT [⟨3, C07.demoExp⟩] (scrambleData 1 0 false (some .uniformRA) [⟨.f32, [1, 2, 3]⟩]).1)[0]? = some t' ∧
+    t'.cols.lookup 3 = some ⟨.i16, [3, 1, 2]⟩ ∧ t'.cols.lookup 0 = some ⟨.f32, [1, 2, 3]⟩ := ⟨_, rfl, by decide, by decide⟩
+
+/-- the `copy=` keyword of the fixed background generation method in the current source is `True` … -/
+theorem c07_fixed_bkg_copy_for_current_source : Gen.C07.fixedBkgCopy = true := rfl
+
+/-- … hence the method as coded is the `genFixed` of the model, and it meets the hypothesis of `c07_frame7` -/
+theorem c07_fixed_bkg_for_current_source (n0 : Nat) (r : Roles) (scr : Scr) (vals : List Col) :
+    (compile7 n0 r (.fixedBkg Gen.C07.fixedBkgCopy scr vals)).rest = (compile n0 r (.genFixed scr vals)).1 ∧
+    (compile7 n0 r (.fixedBkg Gen.C07.fixedBkgCopy scr vals)).first = [] ∧
+    HandlesOK7 r (.fixedBkg Gen.C07.fixedBkgCopy scr vals) :=
+  ⟨rfl, rfl, rfl⟩
+
+/-- the statement for a fixed background generation method that passes `copy=False` -/
+def c07_fixed_bkg_no_copy_statement : Prop :=
+  ∀ (g : G) (scr : Scr) (vals : List Col), viewAt (gstep7 g (.fixedBkg false scr vals)).1.st g.roles.exp = viewAt g.st g.roles.exp
+
+/-- **the copy is necessary**: with `copy=False` the scrambled right ascension is assigned into the stored experimental data -/
+theorem c07_fixed_bkg_no_copy_counterexample : ¬ c07_fixed_bkg_no_copy_statement := by
+  intro h
+  have := h C07.demoG .uniformRA [⟨.f32, [1, 2, 3]⟩]
+  revert this
+  decide
+
+/-- non-vacuity: a history with `scramble_data(copy=True)` on the stored data, in-place scrambling of the result, an injection
+into `None` events, a merge that raises (the signal lacks field 3 of the events) and a trial on `None` background -/
+example : HandlesOK7 C07.demoG.roles (.scramble 0 true (some .uniformRA) [⟨.f32, [1, 2, 3]⟩]) := Or.inl rfl
+example :
+    let h := [GOp7.scramble 0 true (some .uniformRA) [⟨.f32, [1, 2, 3]⟩], .scramble 2 false (some .uniformRA) [⟨.f32, [4, 5, 6]⟩],
+              .inject none (some [(0, ⟨.f32, [7]⟩)]), .trialBkgSig (some 2) (some 3) C07.demoCfg [], .trialBkgSig none (some 3) C07.demoCfgAdopt []]
+    viewAt (grun7 C07.demoG h).st 0 = viewAt C07.demoG.st 0 ∧ (grun7 C07.demoG h).roles.events = some 3 ∧
+    (gstep7 (grun7 C07.demoG (h.take 3)) (.trialBkgSig (some 2) (some 3) C07.demoCfg [])).2.2 = false := by decide
+
+/-- the fields every scrambling method assigns in the current source are documented fields of the model -/
+theorem c07_documented_for_current_source :
+    (∀ n ∈ Gen.C07.assigned_uniformRA, n ∈ documented .uniformRA) ∧ (∀ n ∈ Gen.C07.assigned_i3time, n ∈ documented .i3time) ∧
+    (∀ n ∈ Gen.C07.assigned_seasonal, n ∈ documented .seasonal) ∧ (∀ n ∈ Gen.C07.assigned_time, n ∈ documented .time) := by
+  decide
+
+/-- the default range of `UniformRAScramblingMethod` in the current source lies inside `[0, 2π]`, is not empty, and a uniform
+draw from it is a right ascension in `[0, 2π)` -/
+theorem c07_default_ra_range_for_current_source (u : ℝ) (hu0 : 0 ≤ u) (hu1 : u < 1) :
+    let rg := raRangeOf ((Gen.C07.defaultRaLo : ℝ), (Gen.C07.defaultRaHi : ℝ)) none
+    0 ≤ uniformRA rg.1 rg.2 u ∧ uniformRA rg.1 rg.2 u < 2 * Real.pi := by
+  have hpi : (6.283185307179586 : ℝ) < 2 * Real.pi := by
+    have := Real.pi_gt_d20
+    norm_num at this ⊢
+    linarith
+  simp only [raRangeOf, Gen.C07.defaultRaLo, Gen.C07.defaultRaHi, uniformRA]
+  constructor
+  · norm_num; nlinarith
+  · norm_num; nlinarith
